@@ -1,18 +1,25 @@
 #!/bin/bash
-# tools/seedsall.sh [names...] : apply every kept seeded change to /repo, run the quick check of
-# its property, expect exit 1 with a VIOLATION line, undo the change.
+# tools/seedsall.sh [names...] : apply every kept seeded change to a scratch worktree of /repo
+# (so that /repo itself stays usable by other runs), run the quick check of its property
+# against that worktree (VERIF_REPO), expect exit 1 with a VIOLATION line, undo the change.
+# SEEDS_IN_REPO=1 applies to /repo itself instead (git -C /repo apply ... checkout -- .).
 cd "$(dirname "$0")/.."
 names="$@"; [ -z "$names" ] && names=$(ls seeded)
+if [ "${SEEDS_IN_REPO:-}" = 1 ]; then WT=/repo; else
+  WT=$(mktemp -d /tmp/wtseeds.XXXXXX); rmdir "$WT"
+  git -C /repo worktree add -q --detach "$WT" HEAD || exit 2
+  trap 'git -C /repo worktree remove --force "$WT"; git -C /repo worktree prune' EXIT
+fi
 miss=0
 for n in $names; do
   prop=$(python3 -c "import json;print(json.load(open('seeded/$n/meta.json'))['property'])")
   c=$(echo $prop | tr 'C' 'c')
-  if ! git -C /repo apply --check "$PWD/seeded/$n/patch.diff" 2>/dev/null; then echo "$n: PATCH DOES NOT APPLY (needs rebase)"; miss=1; continue; fi
-  git -C /repo apply "$PWD/seeded/$n/patch.diff"
-  out=$(./vcheck run $c quick 2>&1); rc=$?
-  git -C /repo checkout -q -- .
+  if ! git -C "$WT" apply --check "$PWD/seeded/$n/patch.diff" 2>/dev/null; then echo "$n: PATCH DOES NOT APPLY (needs rebase)"; miss=1; continue; fi
+  git -C "$WT" apply "$PWD/seeded/$n/patch.diff"
+  out=$(VERIF_REPO="$WT" ./vcheck run $c quick 2>&1); rc=$?
+  git -C "$WT" checkout -q -- . ; git -C "$WT" clean -fdq
   v=$(echo "$out" | grep -c VIOLATION)
   if [ $rc -eq 1 ] && [ $v -gt 0 ]; then echo "$n: caught ($v keys)"; else echo "$n: NOT CAUGHT rc=$rc"; miss=1; fi
 done
-git -C /repo status --short
+[ "$WT" = /repo ] && git -C /repo status --short
 exit $miss
